@@ -1,18 +1,16 @@
 #!/bin/bash
 # usage: seedcheck.sh <patch.diff> <property id>... : apply a seeded change to /repo, run the quick
-# checks of the given properties, undo the change. Evidence files are preserved.
+# checks of the given properties, undo the change. Evidence of these runs goes to /tmp/seed_evidence, not to /verif/evidence.
 set -u
 patch=$1; shift
 cd /verif
 git -C /repo diff --quiet || { echo "/repo not clean"; exit 9; }
 git -C /repo apply "$patch" || { echo "patch does not apply"; exit 9; }
 for id in "$@"; do
-  cp evidence/$id.json /tmp/evidence_$id.bak 2>/dev/null
   start=$(date +%s)
-  ./vcheck $id --tier quick > /tmp/seedcheck_$id.log 2>&1
+  VERIF_EVIDENCE_DIR=/tmp/seed_evidence ./vcheck $id --tier quick > /tmp/seedcheck_$id.log 2>&1
   rc=$?
   end=$(date +%s)
-  cp /tmp/evidence_$id.bak evidence/$id.json 2>/dev/null
   echo "== $id exit=$rc wall=$((end-start))s"
   grep -E "^VIOLATION|^KNOWN|ENGINE-MISMATCH|inconclusive:|failure:" /tmp/seedcheck_$id.log | cut -c1-260 | head -8
 done
